@@ -751,6 +751,43 @@ fn corpus() -> Vec<(String, String)> {
   <inputData name="X" id="_i"><variable typeRef="number" name="X"/></inputData>"##,
       ),
     ),
+    // well-formed bases of which *every* single fault is enumerated also in the quick tier (corpus bases are not
+    // sampled): a compound-output table whose rules match any input, and a small requirement graph
+    (
+      "corpus:table with compound output, output values and defaults; every input matches".into(),
+      model(
+        r##"
+  <decision name="T" id="_t"><variable name="T"/>
+    <informationRequirement id="_r1"><requiredInput href="#_i"/></informationRequirement>
+    <informationRequirement id="_r2"><requiredInput href="#_j"/></informationRequirement>
+    <decisionTable hitPolicy="PRIORITY" outputLabel="T">
+      <input id="_in1" label="X"><inputExpression typeRef="number"><text>X</text></inputExpression><inputValues><text>[-100..100], null</text></inputValues></input>
+      <input id="_in2" label="Y"><inputExpression typeRef="string"><text>Y</text></inputExpression></input>
+      <output id="_o1" name="a" typeRef="string"><outputValues><text>"hi", "lo"</text></outputValues><defaultOutputEntry><text>"lo"</text></defaultOutputEntry></output>
+      <output id="_o2" name="b" typeRef="number"><defaultOutputEntry><text>0</text></defaultOutputEntry></output>
+      <output id="_o3" name="c"/>
+      <rule id="_ru1"><inputEntry><text>-</text></inputEntry><inputEntry><text>-</text></inputEntry><outputEntry><text>"lo"</text></outputEntry><outputEntry><text>1</text></outputEntry><outputEntry><text>X</text></outputEntry></rule>
+      <rule id="_ru2"><inputEntry><text>-</text></inputEntry><inputEntry><text>-</text></inputEntry><outputEntry><text>"hi"</text></outputEntry><outputEntry><text>2</text></outputEntry><outputEntry><text>Y</text></outputEntry></rule>
+      <rule id="_ru3"><inputEntry><text>&gt; 1000</text></inputEntry><inputEntry><text>"never"</text></inputEntry><outputEntry><text>"hi"</text></outputEntry><outputEntry><text>3</text></outputEntry><outputEntry><text>null</text></outputEntry></rule>
+    </decisionTable></decision>
+  <inputData name="X" id="_i"><variable typeRef="number" name="X"/></inputData>
+  <inputData name="Y" id="_j"><variable typeRef="string" name="Y"/></inputData>"##,
+      ),
+    ),
+    (
+      "corpus:graph with a decision service, a knowledge model, a boxed context and an item definition".into(),
+      model(
+        r##"
+  <itemDefinition name="tP"><itemComponent name="n"><typeRef>number</typeRef></itemComponent><itemComponent name="tags" isCollection="true"><typeRef>string</typeRef></itemComponent></itemDefinition>
+  <inputData name="P" id="_p"><variable typeRef="tP" name="P"/></inputData>
+  <inputData name="X" id="_i"><variable typeRef="number" name="X"/></inputData>
+  <businessKnowledgeModel name="F" id="_f"><variable name="F"/><encapsulatedLogic><formalParameter name="a" typeRef="number"/><formalParameter name="b"/><literalExpression><text>a + b</text></literalExpression></encapsulatedLogic></businessKnowledgeModel>
+  <decision name="A" id="_a"><variable name="A" typeRef="number"/><informationRequirement id="_r1"><requiredInput href="#_i"/></informationRequirement><knowledgeRequirement id="_k1"><requiredKnowledge href="#_f"/></knowledgeRequirement><literalExpression><text>F(X, 1)</text></literalExpression></decision>
+  <decision name="B" id="_b"><variable name="B"/><informationRequirement id="_r2"><requiredDecision href="#_a"/></informationRequirement><informationRequirement id="_r3"><requiredInput href="#_p"/></informationRequirement><context><contextEntry><variable name="u"/><literalExpression><text>A * 2</text></literalExpression></contextEntry><contextEntry><variable name="v"/><literalExpression><text>count(P.tags) + u</text></literalExpression></contextEntry><contextEntry><literalExpression><text>u + v + P.n</text></literalExpression></contextEntry></context></decision>
+  <decision name="C" id="_c"><variable name="C"/><informationRequirement id="_r4"><requiredDecision href="#_b"/></informationRequirement><knowledgeRequirement id="_k2"><requiredKnowledge href="#_s"/></knowledgeRequirement><literalExpression><text>B + S(5)</text></literalExpression></decision>
+  <decisionService name="S" id="_s"><variable name="S"/><outputDecision href="#_a"/><inputData href="#_i"/></decisionService>"##,
+      ),
+    ),
     (
       "corpus:F12 two decisions requiring each other".into(),
       model(
@@ -817,6 +854,26 @@ fn corpus() -> Vec<(String, String)> {
       ),
     ),
   ]
+}
+
+/// The family of a base model: generated kind, corpus, or the directory of an example file.
+fn family_of(bname: &str) -> String {
+  if let Some(p) = bname.find('#') {
+    bname[..p].to_string()
+  } else if let Some(p) = bname.rfind('/') {
+    bname[..p].to_string()
+  } else {
+    bname.split(':').next().unwrap_or("").to_string()
+  }
+}
+
+/// The class of a fault: its kind and where it applies, without the position.
+fn class_of(f: &Fault) -> String {
+  let at = match f.at.rfind('@') {
+    Some(p) => &f.at[..p],
+    None => f.at.as_str(),
+  };
+  format!("{} {}", f.kind, at)
 }
 
 /// Finds a cycle in a directed graph given as adjacency lists over node names.
@@ -1049,6 +1106,23 @@ pub fn run(cfg: &Cfg) -> Report {
     });
   }
   let base_obs = base_obs.into_inner().unwrap();
+  // how many faults of each class every family of bases has (for the stratified quick sample)
+  let mut class_counts: std::collections::HashMap<(String, String), u64> = std::collections::HashMap::new();
+  if !thorough {
+    for (bi, (bname, text)) in bases.iter().enumerate() {
+      let loads = matches!(&base_obs[bi], Some(o) if matches!(o.stage.as_str(), "ok" | "parse-error" | "build-error"));
+      if !loads {
+        continue;
+      }
+      if let Some(doc) = scan(text) {
+        let family = family_of(bname);
+        for f in faults(text, &doc).iter() {
+          *class_counts.entry((family.clone(), class_of(f))).or_insert(0) += 1;
+        }
+      }
+    }
+  }
+  rep.extra.insert("fault_classes".into(), json!(class_counts.len()));
   for (bi, (bname, text)) in bases.iter().enumerate() {
     let crashing = match &base_obs[bi] {
       Some(o) => !matches!(o.stage.as_str(), "ok" | "parse-error" | "build-error"),
@@ -1076,8 +1150,12 @@ pub fn run(cfg: &Cfg) -> Report {
     // the unfaulted base itself
     w.cases.push((0, vec![]));
     w.meta.push(("none".into(), "base".into()));
+    let family = family_of(bname);
     for f in fs.iter() {
-      let keep = thorough || bi < n_corpus || rng.chance(3, 100);
+      // quick: a 3 % sample, plus about three instances of every class of fault (kind × element × attribute)
+      // within every family of bases, so that no structural shape depends on the luck of the draw
+      let class_n = *class_counts.get(&(family.clone(), class_of(f))).unwrap_or(&1);
+      let keep = thorough || bi < n_corpus || rng.chance(3, 100) || rng.chance(3, class_n.max(3));
       if keep {
         w.cases.push((w.cases.len(), f.edits.clone()));
         w.meta.push((f.kind.clone(), f.at.clone()));
